@@ -118,7 +118,7 @@ fn poll_res(p: Poll<Result<(), io::Error>>) -> String {
 
 /// One run: a real Framed over the scripted transport, `stream` = what the transport must end up holding.
 struct Run<U, I> {
-    framed: Framed<ScriptIo, U>,
+    framed: Option<Framed<ScriptIo, U>>,
     stream: Vec<u8>,
     mk: fn(&[u8]) -> (I, Vec<u8>),
     wakers: Wakers,
@@ -129,11 +129,23 @@ where
     U: Decoder + Encoder<I, Error = io::Error> + Unpin,
 {
     fn new(codec: U, mk: fn(&[u8]) -> (I, Vec<u8>)) -> Self {
-        Run { framed: Framed::new(ScriptIo::default(), codec), stream: vec![], mk, wakers: Wakers::new(1) }
+        Run { framed: Some(Framed::new(ScriptIo::default(), codec)), stream: vec![], mk, wakers: Wakers::new(1) }
+    }
+
+    /// the Framed is taken apart and put together again (into_parts/from_parts, into_map_io, into_map_codec): the write
+    /// buffer must carry over - a stuttering step for the specification
+    fn rebuild(&mut self, kind: usize) {
+        let f = self.framed.take().expect("framed");
+        self.framed = Some(match kind % 3 {
+            0 => Framed::from_parts(f.into_parts()),
+            1 => f.into_map_io(|io| io),
+            _ => f.into_map_codec(|c| c),
+        });
     }
 
     fn step(&mut self, op: &str, n: usize, io: &[Value]) -> Value {
-        self.framed.io_mut().load(io);
+        let framed = self.framed.as_mut().expect("framed");
+        framed.io_mut().load(io);
         let waker = self.wakers.waker(1);
         let mut cx = Context::from_waker(&waker);
         let r = catch(|| match op {
@@ -142,21 +154,21 @@ where
                 let off = self.stream.len();
                 let payload: Vec<u8> = (off..off + n).map(pat).collect();
                 let (item, encoding) = (self.mk)(&payload);
-                let r = Pin::new(&mut self.framed).start_send(item);
+                let r = Pin::new(&mut *framed).start_send(item);
                 if r.is_ok() {
                     self.stream.extend_from_slice(&encoding);
                 }
                 poll_res(Poll::Ready(r))
             }
-            "ready" => poll_res(Pin::new(&mut self.framed).poll_ready(&mut cx)),
-            "flush" => poll_res(Pin::new(&mut self.framed).poll_flush(&mut cx)),
-            "close" => poll_res(Pin::new(&mut self.framed).poll_close(&mut cx)),
+            "ready" => poll_res(Pin::new(&mut *framed).poll_ready(&mut cx)),
+            "flush" => poll_res(Pin::new(&mut *framed).poll_flush(&mut cx)),
+            "close" => poll_res(Pin::new(&mut *framed).poll_close(&mut cx)),
             other => panic!("driver: unknown op {other}"),
         });
         let res = r.unwrap_or_else(|msg| format!("panic: {msg}"));
-        let empty = self.framed.is_write_buf_empty();
-        let full = self.framed.is_write_buf_full();
-        let t = self.framed.io_mut();
+        let empty = framed.is_write_buf_empty();
+        let full = framed.is_write_buf_full();
+        let t = framed.io_mut();
         let prefix_ok = t.held.len() <= self.stream.len() && t.held[..] == self.stream[..t.held.len()];
         json!({"ev": op, "n": n, "io": t.log, "res": res, "held": t.held.len(), "prefix_ok": prefix_ok,
                "empty": empty, "full": full})
@@ -179,6 +191,7 @@ fn mk_line(p: &[u8]) -> (String, Vec<u8>) {
 
 trait Stepper {
     fn step(&mut self, op: &str, n: usize, io: &[Value]) -> Value;
+    fn rebuild(&mut self, kind: usize);
 }
 impl<U, I> Stepper for Run<U, I>
 where
@@ -186,6 +199,9 @@ where
 {
     fn step(&mut self, op: &str, n: usize, io: &[Value]) -> Value {
         Run::step(self, op, n, io)
+    }
+    fn rebuild(&mut self, kind: usize) {
+        Run::rebuild(self, kind)
     }
 }
 fn new_run(codec: &str) -> Box<dyn Stepper> {
@@ -254,6 +270,9 @@ pub fn main() {
                 _ => ("close", 0),
             };
             let io = if op == "send" { vec![] } else { random_io(&mut rng) };
+            if run % 2 == 1 && rng.below(3) == 0 {
+                r.rebuild(rng.below(3));
+            }
             let mut obs = r.step(op, n, &io);
             obs["run"] = json!(run);
             trace.emit(&obs);
@@ -269,6 +288,9 @@ pub fn main() {
         let mut bad = false;
         for (k, exp) in sch.as_array().unwrap().iter().enumerate() {
             let io = exp["io"].as_array().cloned().unwrap_or_default();
+            if run % 3 == 2 && k > 0 {
+                r.rebuild(run / 3 + k); // taken apart and rebuilt between two operations
+            }
             let mut obs = r.step(gets(exp, "op"), geti(exp, "n") as usize, &io);
             obs["run"] = json!(run);
             trace.emit(&obs);
